@@ -165,7 +165,7 @@ def constructive(rng, case, idx):
         cur = top / bottom if bottom > 0 else float('inf')
         if not (target > 0) or not math.isfinite(cur):
             continue
-        if target * 1e10 < 1e4:      # below 1e4 concentration quanta: not judged
+        if target < 1e-14:           # numerically wild
             continue
         capq = None
         if limited:
